@@ -57,6 +57,17 @@ def _inproc(job):
     return dict(name=name, shas=shas)
 
 
+def _mixed(job):
+    """different inputs one after the other in ONE process, none of them reset by the harness: each output must equal the output the
+    same input gives in a fresh process (nothing processed by an earlier run may leak into a later one)"""
+    seq = job
+    shas = []
+    for i, (name, data, kl) in enumerate(seq):
+        res = runner.run_inproc(data, kl, reset=(i == 0))
+        shas.append((name, hashlib.sha256(res.out).hexdigest() if res.out is not None else "crash:" + (res.exc or "")[-120:]))
+    return shas
+
+
 def run(chk):
     quick = chk.tier == "quick"
     rng = random.Random(chk.seed)
@@ -96,6 +107,15 @@ def run(chk):
         sub = ref.get(res["name"], {})
         if sub and res["shas"][0] not in sub:
             chk.violation(f"[{res['name']}] in-process output differs from the subprocess output", dict(input=res["name"]))
+    # different inputs interleaved in one process (A, B, C, ..., A again)
+    orders = [ins + ins[:2], list(reversed(ins)) + [ins[-1]]] + ([] if quick else [rng.sample(ins, len(ins)) + rng.sample(ins, 2) for _ in range(6)])
+    for shas in pool_map(_mixed, orders, chunksize=1):
+        for name, sha in shas:
+            chk.evaluations += 1
+            sub = ref.get(name, {})
+            if sub and sha not in sub:
+                chk.violation(f"[{name}] output of an in-process run that follows runs on OTHER inputs differs from the output of a fresh process "
+                              f"({sha[:12]} vs {list(sub)[0][:12]}): something processed by an earlier run leaked into it", dict(input=name, sha=sha))
     chk.sample(dict(inputs=[n for n, _d, _k in ins], hash_seeds=seeds))
     chk.rule = ("inputs (multi-connection QUIC captures with zero-length / prefix-related CIDs, mixed TLS+QUIC sets, TLS captures of 3 cipher-state "
                 "kinds) x PYTHONHASHSEED values x fresh working directory x scrubbed / noisy environment as real subprocesses, plus 3 consecutive "
